@@ -317,7 +317,8 @@ class AstMixin:
     def exec_sym_range(self, st: ast.For, env: Any, r: "SymRange", ordinal: int) -> None:
         spec = self.loop_specs.get((env.fctx.qualname, ordinal))
         if spec is not None:
-            raise Unsupported("for-loop invariants: not implemented")
+            self.exec_sym_range_with_invariant(st, env, r, spec, ordinal)
+            return
         limit = self.unroll.get(env.fctx.qualname, self.default_unroll)
         if limit == 0:
             raise Unsupported(f"for loop #{ordinal} over symbolic range without bound in {env.fctx.qualname}")
@@ -343,6 +344,58 @@ class AstMixin:
             i = i + r.step
         if not broke:
             self.exec_block(st.orelse, env)
+
+    def exec_sym_range_with_invariant(self, st: ast.For, env: Any, r: "SymRange", spec: Any, ordinal: int) -> None:
+        """`for i in range(a, b)` with an inductive invariant I over the loop variables, where the loop target stands
+        for "the next index to be processed" (a at entry, b at exit):  I holds at entry; from an arbitrary state with
+        a <= k < b and I, one iteration re-establishes I for k + 1 (that path ends); the code after the loop runs from an
+        arbitrary state with I at k == max(a, b).  A for loop over a range always terminates: no variant."""
+        if r.step != 1 or not isinstance(st.target, ast.Name):
+            raise Unsupported("for-loop invariant: only `for name in range(a, b)`")
+        qn = env.fctx.qualname
+        ns = _NS(self, env)
+        cns = getattr(self, "contract_ns", None)
+        tgt = st.target.id
+        had = env.vars.get(tgt, _MISSING)
+        env.vars[tgt] = r.start
+        self.oblige(spec.invariant(ns, cns), f"{qn}#loop{ordinal}.init", kind="loop-init", site=self._site)
+        for name in sorted(_assigned_names(st)):
+            if name == tgt:
+                continue
+            cur = env.vars.get(name, _MISSING)
+            if cur is _MISSING:
+                continue
+            if isinstance(cur, (SBool, bool)):
+                env.vars[name] = sym.fresh_bool(name)
+            elif isinstance(cur, (SInt, int)):
+                env.vars[name] = sym.fresh_int(name)
+            else:
+                hv = getattr(spec, "havoc", None)
+                if hv is None or name not in hv:
+                    raise Unsupported(f"loop havoc of non-integer variable {name}")
+                env.vars[name] = hv[name](self, name)
+        k = sym.fresh_int(tgt)
+        self.assume(sym.And(k >= r.start, sym.Or(k <= r.stop, k == r.start)))
+        env.vars[tgt] = k
+        self.assume(spec.invariant(ns, cns))
+        if self.truth(k < r.stop):
+            try:
+                self.exec_block(st.body, env)
+            except _Break:
+                return
+            except _Continue:
+                pass
+            env.vars[tgt] = k + 1
+            self.oblige(spec.invariant(ns, cns), f"{qn}#loop{ordinal}.preserve", kind="loop-preserve", site=self._site)
+            raise PathEnd()
+        # loop finished: Python leaves the target at the last index processed (or untouched when the range was empty)
+        if self.truth(r.start < r.stop):
+            env.vars[tgt] = r.stop - 1
+        elif had is _MISSING:
+            env.vars.pop(tgt, None)
+        else:
+            env.vars[tgt] = had
+        self.exec_block(st.orelse, env)
 
     def loop_ordinal(self, st: ast.AST, env: Any) -> int:
         node = env.fctx.node
